@@ -3,7 +3,9 @@ package gh
 
 import (
 	"encoding/hex"
+	"fmt"
 	"sort"
+	"strconv"
 	"unicode/utf8"
 )
 
@@ -64,20 +66,22 @@ func T(s string) Tok { return ToAtoms(s) }
 func Ts(ss ...string) []Tok { return ToksOf(ss) }
 
 type NodeCfg struct {
-	Name   Tok   `json:"name"`
-	Parent int   `json:"parent"` // 1-based index, 0 for the root
-	Um     int   `json:"um"`     // 0 fail 1 warn 2 pass (effective)
-	Ro     bool  `json:"ro"`
-	Unset  bool  `json:"unset"`
-	Fn     bool  `json:"fn"`
-	IsHelp bool  `json:"ishelp"`
-	Sugg   []Tok `json:"sugg"`
-	Desc   Tok   `json:"desc"`
-	Args   []Tok `json:"args"`  // HelpSynopsisArg names
-	ArgsD  []Tok `json:"argsd"` // ... and their descriptions
-	DynFn  bool  `json:"dynfn"` // has a dynamic completion function (echoes DynOut)
-	DynOut []Tok `json:"dynout"`
-	Sorted []Tok `json:"sorted"` // names and aliases visible at this level in Go's string order (ordering oracle)
+	Name     Tok   `json:"name"`
+	Parent   int   `json:"parent"` // 1-based index, 0 for the root
+	Um       int   `json:"um"`     // 0 fail 1 warn 2 pass (effective)
+	Ro       bool  `json:"ro"`
+	Unset    bool  `json:"unset"`
+	Fn       bool  `json:"fn"`
+	IsHelp   bool  `json:"ishelp"`
+	Sugg     []Tok `json:"sugg"`
+	Desc     Tok   `json:"desc"`
+	Args     []Tok `json:"args"`  // HelpSynopsisArg names
+	ArgsD    []Tok `json:"argsd"` // ... and their descriptions
+	DynFn    bool  `json:"dynfn"` // has a dynamic completion function (echoes DynOut)
+	DynOut   []Tok `json:"dynout"`
+	Sorted   []Tok `json:"sorted"`   // names and aliases visible at this level in Go's string order (ordering oracle)
+	OptOrder []int `json:"optorder"` // options visible at this level, ordered by primary name
+	CmdOrder []int `json:"cmdorder"` // child commands ordered by name
 }
 
 type OptCfg struct {
@@ -101,6 +105,7 @@ type OptCfg struct {
 	Desc      Tok    `json:"desc"`
 	ArgName   Tok    `json:"argname"`
 	UseVar    bool   `json:"usevar"`
+	DefFmt    Tok    `json:"deffmt"` // default as the help prints it, for float kinds (Go's %f formatting is not modelled)
 }
 
 type EnvCfg struct {
@@ -169,6 +174,7 @@ type Res struct {
 	Comps   []Tok         `json:"comps"`
 	CompNil bool          `json:"compnil"`
 	Sorted  bool          `json:"sorted"`
+	Help    HelpDoc       `json:"help"`
 	NonDet  bool          `json:"nondet"`  // repeated executions of this very case differed (C20)
 	RawHash string        `json:"rawhash"` // hash of everything observable incl. full messages and texts
 	Exits   []int         `json:"exits"`
@@ -188,7 +194,8 @@ type Def struct {
 	Tokens []Tok  `json:"tokens"`
 	L      int    `json:"L"`
 	Disp   bool   `json:"disp"`
-	Comp   bool   `json:"comp"` // completion family: every word sequence is run as a COMP_LINE for bash and zsh
+	Comp   bool   `json:"comp"`  // completion family: every word sequence is run as a COMP_LINE for bash and zsh
+	HelpF  bool   `json:"helpf"` // help family: the help of every command level is requested through all paths
 }
 
 // Case - one case line of a trace file.
@@ -198,7 +205,8 @@ type Case struct {
 	ID   int    `json:"id"`
 	Argv []Tok  `json:"argv"`
 	Disp bool   `json:"disp"`
-	Comp string `json:"comp"` // "" | bash | zsh
+	Comp string `json:"comp"` // "" | bash | zsh | help
+	HN   int    `json:"hn"`   // help case: the node whose help is requested
 	Res  Res    `json:"res"`
 }
 
@@ -247,6 +255,12 @@ func (c *Cfg) Normalize() {
 		}
 		sort.Strings(keys)
 		c.Nodes[i].Sorted = ToksOf(keys)
+		oo := append([]int{}, c.TableOpts(i+1)...)
+		sort.SliceStable(oo, func(a, b int) bool { return FromAtoms(c.Opts[oo[a]-1].Name) < FromAtoms(c.Opts[oo[b]-1].Name) })
+		c.Nodes[i].OptOrder = oo
+		co := c.children(i + 1)
+		sort.SliceStable(co, func(a, b int) bool { return FromAtoms(c.Nodes[co[a]-1].Name) < FromAtoms(c.Nodes[co[b]-1].Name) })
+		c.Nodes[i].CmdOrder = co
 	}
 	for i := range c.Opts {
 		o := &c.Opts[i]
@@ -274,14 +288,23 @@ func (c *Cfg) Normalize() {
 		if o.ArgName == nil {
 			o.ArgName = Tok{}
 		}
+		o.DefFmt = Tok{}
 		switch o.Kind {
+		case "incr":
+			o.DefFmt = T(strconv.Itoa(o.DefI))
 		case "int", "iopt":
 			if len(o.DefT) == 0 {
 				o.DefT = T("0")
 			}
+			if n, err := strconv.Atoi(FromAtoms(o.DefT)); err == nil {
+				o.DefFmt = T(strconv.Itoa(n))
+			}
 		case "float", "fopt":
 			if len(o.DefT) == 0 {
 				o.DefT = T("0")
+			}
+			if f, err := strconv.ParseFloat(FromAtoms(o.DefT), 64); err == nil {
+				o.DefFmt = T(fmt.Sprintf("%f", f))
 			}
 		}
 	}
